@@ -282,7 +282,7 @@ func TestVerifC03(t *testing.T) {
 			h, path = state.TOTPAuthHandler, totpAuthPath
 		case "direct":
 			h = func(w http.ResponseWriter, r *http.Request) {
-				if _, err := state.updateAuthCookieAuthlevel(w, r, "username", AuthTypePassword|AuthTypeU2F); err != nil {
+				if _, err := vfUpgradeCookie(state, w, r, "username", AuthTypePassword|AuthTypeU2F); err != nil {
 					w.WriteHeader(500)
 				}
 			}
